@@ -6,6 +6,8 @@ def run(chk, tier):
     # the same clause where the process that cannot be created is a command of a pipeline
     import pipeprops
     pipeprops.c07_pipelines(chk, tier)
+    # ... and with the failure causes the operating system really produces
+    spawnprops.c07_real_causes(chk, tier)
 
 
 def replay(chk, path):
@@ -16,5 +18,12 @@ def replay(chk, path):
         chk.obligations(C.props_check("C07", spawnprops.DEPS))
         C.build_harness()
         pipeprops.c07_pipelines(chk, "quick", explicit=[pipeprops.tpl_from_json(lines[1])])
+        return
+    if lines and lines[0].strip() == "oscause":
+        import json
+        import common as C
+        chk.obligations(C.props_check("C07", spawnprops.DEPS))
+        C.build_harness()
+        spawnprops.c07_real_causes(chk, "quick", explicit=[json.loads(lines[1])])
         return
     spawnprops.replay(chk, path, "C07")
